@@ -1,5 +1,14 @@
 (* C01 -- Query results equal the documented YAML Path segment semantics.
-   Statements only; proofs live in Proofs/EvalSem.v.
+   Statements only; proofs live in Proofs/EvalSem*.v and Proofs/SpecC01Facts.v.
+
+   PATH LEVEL (second half of this file): for every document and every prepared
+   path of the C01 fragment the required query of the model yields exactly
+   [sem_doc p d] of Spec/SpecC01.v -- same node objects, same order, none
+   missing, none extra, and the stream ends normally -- wherever the
+   specification speaks and outside the two listed findings (computable guard:
+   the strict reading of the specification carries no SOut marker).
+
+   SEGMENT LEVEL (first half, older):
 
    What is proved here (for every document, every context, every oracle):
    the segment handlers of the evaluator model select exactly the nodes the
@@ -14,7 +23,8 @@
    code; it is refuted for optional queries (F10) and for descendant searches
    reaching several nodes (F12a), witnesses below. *)
 From Coq Require Import List Ascii String ZArith NArith Bool.
-From YP Require Import Outcome PyStr PyVal Doc Generated PathParser PathPrinter Searches Eval SpecC01 EvalSem.
+From YP Require Import Outcome PyStr PyVal Doc Generated PathParser PathPrinter Searches Eval SpecC01 EvalSem
+  EvalSemLib EvalSemPath EvalSemTop SpecC01Facts C08Spec.
 Import ListNotations.
 Open Scope string_scope.
 
@@ -104,3 +114,173 @@ Example C01_notation_example :
   | _, _ => False
   end.
 Proof. vm_compute. reflexivity. Qed.
+
+
+(* ======================================================================== *)
+(* PATH LEVEL                                                                *)
+(* [sem_doc .. false p d] is the documented meaning of the path p on the
+   document d; [sem_doc .. true p d] is the same list in which the situations of
+   the listed findings F12a / F29 are marked SOut, like the places where the
+   documentation is silent or says "error" (a segment applied to a slice
+   result, an index into a set, a non-integer array slice, an unparsable search
+   attribute, an invalid regular expression).  [specified] = no SOut marker.
+   [item_res] reads off what a yielded NodeCoords designates: the document node
+   (the object: Doc.node carries its identity) or the members of a virtual
+   slice result. *)
+
+(* Processor.get_nodes(path, mustexist=True): every document, every path of the
+   fragment, every oracle, every keyword handler / creator (never reached) *)
+Theorem C01_required_sem_partial :
+  forall lit re_search nstr vstr kw_handler creator p d,
+    c01_frag p = true -> is_null_node d = false ->
+    specified (sem_doc lit re_search nstr true p d) = true ->
+    let g := get_required lit re_search nstr vstr kw_handler creator p d in
+    map item_res (fst g) = sem_doc lit re_search nstr false p d /\
+    snd g = match sem_doc lit re_search nstr false p d with [] => Err (YPE Unmatched) | _ => Done end.
+Proof. exact required_sem. Qed.
+Print Assumptions C01_required_sem_partial.
+
+(* the evaluator itself (what exists() and the writers call), from any context *)
+Theorem C01_required_root_partial :
+  forall lit re_search nstr vstr kw_handler creator segs d c,
+    c01_frag (PPath segs) = true ->
+    specified (sem_path lit re_search nstr true (PPath segs) true d) = true ->
+    let g := ev lit re_search nstr vstr kw_handler creator (fuel_for (PPath segs)) MReq segs 0 (RNode d) c in
+    snd g = Done /\ map item_res (fst g) = sem_path lit re_search nstr false (PPath segs) true d.
+Proof. exact ev_root_sem. Qed.
+Print Assumptions C01_required_root_partial.
+
+(* "Refusing to get nodes from a null document" *)
+Theorem C01_required_null :
+  forall lit re_search nstr vstr kw_handler creator p d,
+    is_null_node d = true ->
+    get_required lit re_search nstr vstr kw_handler creator p d = gnil /\ sem_doc lit re_search nstr false p d = [].
+Proof. exact required_null. Qed.
+
+(* the guard is not a second specification: where the strict reading marks
+   nothing it IS the documented meaning *)
+Theorem C01_guard_is_documented_meaning :
+  forall lit re_search nstr p d,
+    specified (sem_doc lit re_search nstr true p d) = true ->
+    sem_doc lit re_search nstr false p d = sem_doc lit re_search nstr true p d.
+Proof. exact sem_doc_strict_eq. Qed.
+Print Assumptions C01_guard_is_documented_meaning.
+
+(* an optional-match query on a path that exists in every branch ([opt_ok]:
+   no branch without a match at a segment that could be created -- F16b --, no
+   null node with segments still to go -- F10) is the required query: same
+   stream, hence no node created (a creation ends the stream with Mut) *)
+Theorem C01_optional_on_existing_partial :
+  forall lit re_search nstr vstr kw_handler creator p segs d,
+    p = PPath segs ->
+    opt_ok lit re_search nstr vstr kw_handler creator (fuel_for p) segs 0 (RNode d) root_ctx = true ->
+    fst (get_required lit re_search nstr vstr kw_handler creator p d) <> [] ->
+    get_optional lit re_search nstr vstr kw_handler creator p d
+    = get_required lit re_search nstr vstr kw_handler creator p d.
+Proof. exact optional_on_existing. Qed.
+Print Assumptions C01_optional_on_existing_partial.
+
+(* ---- the unguarded statement is false: F12a and F29 ---- *)
+Definition sres_oids (l : list selres) : list (list N) :=
+  map (fun s => match s with SNode n => [node_oid n] | SVirt ns => map node_oid ns | SOut => [] end) l.
+
+(* F12a: [a.*=1] over [{a: {x: 2, y: 1}}] -- the documented meaning selects the
+   element (it has a descendant a.* equal to 1), the code selects nothing *)
+Theorem C01_required_sem_refuted :
+  exists p d,
+    c01_frag p = true /\ is_null_node d = false /\
+    map item_res (fst (get_required lit2 re2 nstr2 vstr2 kw2 cr2 p d)) <> sem_doc lit2 re2 nstr2 false p d.
+Proof.
+  destruct (prepare 12 "[a.*=1]") as [p| |] eqn:E; try (vm_compute in E; discriminate).
+  exists p, doc_f12. vm_compute in E. injection E as <-. repeat split. vm_compute. discriminate.
+Qed.
+Print Assumptions C01_required_sem_refuted.
+
+(* F29: {s: !!set {a, b}}, s.*[.=a] -- `*` returns every immediate child and the
+   filter keeps the member a; the code yields nothing (s.* and s[.=a] both work) *)
+Definition doc_f29 : node :=
+  NMap (inf2 0) [(leaf2 1 (PStr "s"), NSet (inf2 2) [leaf2 3 (PStr "a"); leaf2 4 (PStr "b")])].
+Definition lit_str (s : string) : outcome litres := Ok LFail.
+Theorem C01_wildcard_filter_on_set_refuted :
+  match prepare 12 "s.*[.=a]" with
+  | Ok p => sres_oids (sem_doc lit_str re2 nstr2 false p doc_f29) = [[3%N]] /\
+            oids (get_required lit_str re2 nstr2 vstr2 kw2 cr2 p doc_f29) = ([], Err (YPE Unmatched)) /\
+            specified (sem_doc lit_str re2 nstr2 true p doc_f29) = false
+  | _ => False
+  end.
+Proof. vm_compute. repeat split. Qed.
+
+(* ---- non-vacuity of the guards ---- *)
+(* {x: [{a: 1, b: [1, 2, 3]}, {a: 2, b: [4, 5, 6]}], s: !!set {a, b}} *)
+Definition doc_nv : node :=
+  NMap (inf2 0)
+    [(leaf2 1 (PStr "x"),
+      NSeq (inf2 2)
+        [NMap (inf2 3) [(leaf2 4 (PStr "a"), leaf2 5 (PInt 1));
+                        (leaf2 6 (PStr "b"), NSeq (inf2 7) [leaf2 5 (PInt 1); leaf2 8 (PInt 2); leaf2 9 (PInt 3)])];
+         NMap (inf2 10) [(leaf2 4 (PStr "a"), leaf2 8 (PInt 2));
+                         (leaf2 6 (PStr "b"), NSeq (inf2 11) [leaf2 12 (PInt 4); leaf2 13 (PInt 5); leaf2 14 (PInt 6)])]]);
+     (leaf2 15 (PStr "s"), NSet (inf2 16) [leaf2 17 (PStr "a"); leaf2 18 (PStr "b")])].
+
+Definition nv_check (text : string) (want : list (list N)) : Prop :=
+  match prepare 20 text with
+  | Ok p => c01_frag p = true /\ specified (sem_doc lit2 re2 nstr2 true p doc_nv) = true /\
+            sres_oids (sem_doc lit2 re2 nstr2 false p doc_nv) = want /\
+            sres_oids (map item_res (fst (get_required lit2 re2 nstr2 vstr2 kw2 cr2 p doc_nv))) = want
+  | _ => False
+  end.
+
+(* key, pass-through into the Array-of-Hashes, search on a named attribute, index, slice *)
+Example C01_guard_nonvacuous_1 : nv_check "x[a=2].b[1:3]" [[13%N; 14%N]].
+Proof. vm_compute. repeat split. Qed.
+Example C01_guard_nonvacuous_2 : nv_check "x.b[-1]" [[9%N]; [14%N]].
+Proof. vm_compute. repeat split. Qed.
+(* `**` then a filter, `*` then a filter, descendant search reaching one node, inverted search, set *)
+Example C01_guard_nonvacuous_3 : nv_check "**[.=5]" [[13%N]].
+Proof. vm_compute. repeat split. Qed.
+Example C01_guard_nonvacuous_4 : nv_check "x.*[b.0!=1].a" [[8%N]].
+Proof. vm_compute. repeat split. Qed.
+Example C01_guard_nonvacuous_5 : nv_check "/s[.=b]" [[18%N]].
+Proof. vm_compute. repeat split. Qed.
+Example C01_guard_nonvacuous_6 : nv_check "x.**" [[5%N]; [5%N]; [8%N]; [9%N]; [8%N]; [12%N]; [13%N]; [14%N]].
+Proof. vm_compute. repeat split. Qed.
+
+(* the optional guard: x.a exists in every element *)
+Example C01_optional_guard_nonvacuous :
+  match prepare 20 "x.a" with
+  | Ok (PPath segs) =>
+      opt_ok lit2 re2 nstr2 vstr2 kw2 cr2 (fuel_for (PPath segs)) segs 0 (RNode doc_nv) root_ctx = true /\
+      oids (get_optional lit2 re2 nstr2 vstr2 kw2 cr2 (PPath segs) doc_nv) = ([5%N; 8%N], Done)
+  | _ => False
+  end.
+Proof. vm_compute. repeat split. Qed.
+
+(* F16b: a.b over [{a: {b: 1}}, {a: {c: 1}}] -- the required query matches, the
+   optional one goes on to create b in the second element *)
+Definition doc_f16b : node :=
+  NSeq (inf2 0) [NMap (inf2 1) [(leaf2 2 (PStr "a"), NMap (inf2 3) [(leaf2 4 (PStr "b"), leaf2 5 (PInt 1))])];
+                 NMap (inf2 6) [(leaf2 2 (PStr "a"), NMap (inf2 7) [(leaf2 8 (PStr "c"), leaf2 5 (PInt 1))])]].
+Theorem C01_optional_partial_existence_refuted :
+  match prepare 10 "a.b" with
+  | Ok p => oids (get_required lit2 re2 nstr2 vstr2 kw2 cr2 p doc_f16b) = ([5%N], Done) /\
+            snd (get_optional lit2 re2 nstr2 vstr2 kw2 cr2 p doc_f16b) = Mut 0 PNone
+  | _ => False
+  end.
+Proof. vm_compute. split; reflexivity. Qed.
+
+
+(* notation: the same segments written in dot and in forward-slash notation are
+   read back (separator inferred) as the same escaped segments -- all that
+   [sem_path] reads of a prepared path besides the pre-parsed search attributes,
+   which are part of the segments.  From C08 (guards: C08's [wf], the property's
+   own exclusion of dot texts starting with "/").  The step from equal segments
+   to equal prepared paths (the UNESCAPED twin parse, read only by the collector
+   and creation branches) is not proved; C01_notation_example and the judge of
+   harness/c01.py (every case in both notations) stand in for it. *)
+Theorem C01_notation_segments_partial :
+  forall l : list sseg,
+    wf Dot l = true -> wf Slash l = true -> first_not_in ["/"%char] (render_ref Dot l) = true ->
+    parse Auto true (render_ref Dot l) = Ok (segs_of l) /\
+    parse Auto true (render_ref Slash l) = Ok (segs_of l).
+Proof. exact notation_same_segments. Qed.
+Print Assumptions C01_notation_segments_partial.
